@@ -13,6 +13,9 @@ Families
                 underliers: all joint (spot, variance) paths incl. variance 0; zero-sigma Brownian stock:
                 the constant paths) through Hedger(BlackScholes(d)) and Hedger(WhalleyWilmott(d)):
                 compute_hedge and compute_pl finite on every path and column.
+  maturity_step the BS module of each option type fed with Hedger.get_input(d, T-1) and get_input(d, -1) (the per-step
+                entry points time_to_maturity(i), log_moneyness(i), ...) on ALL scripted paths: price == certain
+                payoff, delta / forward == limiting delta.
 """
 from __future__ import annotations
 
@@ -238,6 +241,11 @@ def limits(ctx, block):
                 d = (m - s) if m >= 0 else -s
                 if abs(d) <= 2 * abs(shift):
                     cls = f"strike_f32_shift_{_state_class(kind, s, m)}"
+            nz = [n_ for n_, z in (("t", t), ("v", v)) if z == 0 and math.copysign(1.0, z) < 0]
+            if nz:
+                # IEEE negative zero passes the t >= 0 / v >= 0 validation, but sqrt(-0.0) = -0.0 and s / -0.0 has the
+                # opposite sign: d1, d2 = -+inf are swapped
+                cls = f"negative_zero_{'_'.join(nz)}_{what}"
             mini = {"dtype": block["dtype"], "strike": K, "evals": [name], "cases": [cases_row(raw64=vals[i])]}
             ctx.violation(site, cls,
                           f"{name}(s={s!r}, m={m!r}, t={t!r}, v={v!r}, K={K}, {block['dtype']}) = {g!r}; "
@@ -471,6 +479,64 @@ def hedger_finite(ctx, block):
 
 
 # ----------------------------------------------------------------------------
+# the per-step entry points at the maturity step
+# ----------------------------------------------------------------------------
+
+@family
+def maturity_step(ctx, block):
+    """Black-Scholes module fed from the derivative's own features at the LAST step through the per-step entry
+    points (Hedger.get_input(d, T-1) / get_input(d, -1), i.e. time_to_maturity(i), log_moneyness(i), ...):
+    price == the payoff that is now certain, delta == its limit, nothing NaN - on every scripted path."""
+    from pfhedge.nn import BlackScholes, Hedger
+    dtype = DT[block["dtype"]]
+    eps = torch.finfo(dtype).eps
+    T, A, K, kind, call = block["T"], block["A"], block["strike"], block["derivative"], block.get("call", True)
+    spot = all_paths(A, T, dtype=dtype)
+    if block.get("rows") is not None:
+        spot = spot[block["rows"]]
+    p = market.primary("brownian", dtype=dtype, dt=market.DT, sigma=block["sigma"])
+    market.set_buffers(p, spot=spot)
+    kw = {"strike": K}
+    if not call:
+        kw["call"] = False
+    d = market.derivative(kind, p, T=T, **kw)
+    m = BlackScholes(d)
+    hedger = Hedger(m, m.inputs())
+    N = spot.size(0)
+    base = block.get("rows")
+    sT = (spot[:, -1] / K).log().tolist()
+    mT = (spot.max(dim=1).values / K).log().tolist()
+    tag = "call" if call else "put"
+    for i in block["indices"]:
+        step = i if i >= 0 else T + i
+        if step != T - 1:
+            raise AssertionError("maturity_step is about the last grid column")
+        with torch.no_grad():
+            x = hedger.get_input(d, i)                                   # (N, 1, F)
+            cols = [x[..., [j]] for j in range(x.size(-1))]
+            price = m.price(*cols)[:, 0, 0].tolist()
+        delta = m.delta(*cols).detach()[:, 0, 0].tolist()
+        fwd = m(x).detach()[:, 0, 0].tolist()
+        ctx.tick(3 * N, nontrivial=3 * N)
+        for r in range(N):
+            s_, m_ = sT[r], (mT[r] if kind in ("american_binary", "lookback") else None)
+            lo, hi, zn = L.price_bounds(kind, s_, m_, 0.0, block["sigma"], K, call, eps)
+            dlo, dhi, _ = L.delta_bounds(kind, s_, m_, 0.0, block["sigma"], K, call, eps)
+            for what, got, a, b in (("price", price[r], lo, hi), ("delta", delta[r], dlo, dhi), ("forward", fwd[r], dlo, dhi)):
+                if got == got and a <= got <= b:
+                    continue
+                st = _state_class(kind, s_, m_ if m_ is not None else s_)
+                mini = dict(block, rows=[base[r] if base is not None else r], indices=[i])
+                ctx.violation(f"{type(m).__name__}.{what}",
+                              f"maturity_step_{'nan' if got != got else 'value'}_{st}" + ("_negative_index" if i < 0 else ""),
+                              f"{type(m).__name__}[{tag}, K={K}] fed with Hedger.get_input(derivative, {i}) (last of T={T} steps; spot "
+                              f"path {spot[r].tolist()}, time_to_maturity({i}) = {float(d.time_to_maturity(i)[0, 0])!r}): {what} = "
+                              f"{got!r}, must lie in [{a!r}, {b!r}] (the payoff is certain: zone {zn})",
+                              observed=got, expected=[a, b], block=mini)
+        ctx.outcome((kind, tag, i, round(sum(x_ for x_ in price if x_ == x_), 9)))
+
+
+# ----------------------------------------------------------------------------
 
 def _both_signs(xs):
     out = []
@@ -487,7 +553,8 @@ def run(ctx):
              "sigma*sqrt(t) is exactly 0 in the dtype (the 0/0 and inf*0 branches).  negative_args: every bs_* "
              "function, d1, d2, every module Greek x negative (t,v) patterns.  hedger_finite: all |A|^T price "
              "paths (Heston: all joint (spot,variance) paths) x 4 option types (+puts) x {BlackScholes, "
-             "WhalleyWilmott} x cost; non-trivial = paths touching the strike or a zero-volatility step")
+             "WhalleyWilmott} x cost; non-trivial = paths touching the strike or a zero-volatility step.  maturity_step: all |A|^T "
+             "paths x 6 option variants x 2 strikes x step index in {T-1, -1} x dtype")
     ctx.assume("Phi(-40) and phi(40) are below the smallest positive float, so a kink >= 40 standard deviations away "
                "is 'certain' (zone decided exactly in rationals on the float arguments)")
     ctx.assume("binaries exactly at the strike are outside the statement ('away from the strike'): only NaN-freeness "
@@ -497,6 +564,7 @@ def run(ctx):
     ts = tiny + [0.25, 1.0]
     vs = [0.2] + tiny + [1.0]
     tv = [[t, v] for t in ts for v in vs if (t in tiny or v in tiny)]
+    tv_neg_zero = [[-0.0, 0.2], [0.25, -0.0], [-0.0, -0.0]]     # negative zero IS zero time / volatility
     extra_s = ctx.extra_symbol("abs_log_moneyness", [0.001, 0.1, 0.25, 1.0, 2.0])
     s_abs = [0.5, 0.0, 0.01, 1e-9, 5.0] + [extra_s]
     s_alpha = _both_signs(s_abs)
@@ -511,7 +579,8 @@ def run(ctx):
         s_alpha = _both_signs(s_abs)
         m_off = ["same", 1e-12, 1e-9, 0.001, 0.05, 1.0, "to_zero", "cross"]
         strikes = [1.0, 0.5, 1.3, 1.1, 0.7, 3.0, 10.0, 0.01, 250.0, extra_k]
-    ctx.alphabet("(t,v) pairs", tv)
+    tv = tv + tv_neg_zero
+    ctx.alphabet("(t,v) pairs", [[repr(a), repr(b)] for a, b in tv])
     ctx.alphabet("log_moneyness", s_alpha)
     ctx.alphabet("running-max offsets", m_off)
     ctx.alphabet("strike", strikes)
@@ -556,3 +625,14 @@ def run(ctx):
             blocks.append(dict(common, underlier="brownian", sigma=0.2, dtype="float32"))
     for b in blocks:
         ctx.run("hedger_finite", b)
+
+    # the maturity step through the per-step entry points (get_input(d, T-1), get_input(d, -1))
+    for T, (kind, call), K, dtype in itertools.product([2, 3] if ctx.quick else [2, 3, 4, 5], kinds, [1.0, 1.25],
+                                                       ["float64", "float32"]):
+        if ctx.quick and dtype == "float32" and T != 3:
+            continue
+        ctx.run("maturity_step", {"T": T, "A": A, "strike": K, "derivative": kind, "call": call, "sigma": 0.2,
+                                  "dtype": dtype,
+                                  # max_log_moneyness(-1) raises IndexError on the unchanged tree (prefix [: i + 1] is empty):
+                                  # -1 is not an accepted index for the running-maximum inputs
+                                  "indices": [T - 1] if kind in ("american_binary", "lookback") else [T - 1, -1]})
